@@ -106,6 +106,10 @@ PairScenarios == {
   NoLog(S("init-new", L_empty, P2(InitCmd, NewTask), {})),
   NoLog(S("init-plan", L_empty, P2(InitCmd, PlanAB), {})),
   S("init-set", L_two, P2(InitCmd, SetState("i1", "done", "")), {}),
+  \* `init` run again on legacy stores (only events.jsonl: with items, and still empty)
+  \* while a writer that has already chosen its log file waits for the lock
+  Legacy(S("init-set", L_two, P2(InitCmd, SetState("i1", "done", "")), {})),
+  Legacy(S("init-new-empty", L_empty, P2(InitCmd, NewTask), {})),
   S("claimid-setdone", L_two, P2(ClaimId("i1", "a1"), SetState("i1", "done", "")), {}),
   S("claimid-claimid", L_two, P2(ClaimId("i1", "a1"), ClaimId("i1", "a2")), {}),
   S("setdoing-setdone", L_two, P2(SetState("i1", "doing", "a1"), SetState("i1", "canceled", "")), {})
